@@ -23,6 +23,7 @@ type Stats struct {
 	ConcretizeOverflow int64
 	Steps              int64
 	Imprecise          int64
+	LazyForced         int64
 }
 
 // ---------------------------------------------------------------- undo log
